@@ -649,7 +649,7 @@ def main():
                 for view in views:
                     if view != "contiguous" and sh != shapes_for(c["min_shape"], True)[-1] and chk.quick:
                         continue
-                    for rt in precisions:
+                    for rt in (precisions if not chk.quick else ["float64", "float32"]):
                         if rt == "float32" and (view != "contiguous" or sh != shapes_for(c["min_shape"], True)[-1]):
                             continue
                         chk.add(kernel_case, real_t=rt, name=name, shape=list(sh), view=view, options=opt)
